@@ -6,37 +6,58 @@
 (* A `Crash` event has no transition: a trace containing one is not a      *)
 (* behaviour of the specification.                                         *)
 (***************************************************************************)
-EXTENDS RustFFT, Json, IOUtils, Sequences
+EXTENDS RustFFT, CallProtocol, Json, IOUtils, Sequences
 
 Rec == ndJsonDeserialize(IOEnv.TRACE)
 
 VARIABLE l      \* next event to consume
+VARIABLE iters  \* stack of chunk-iteration helper invocations in progress (hook H4), innermost last
+VARIABLE idrift \* faithful-layer mismatches of the chunk accounting (never a violation)
 
-tvars == <<vars, l>>
+tvars == <<vars, l, iters, idrift>>
 
 E == Rec[l]
 IsEvent(k) == l <= Len(Rec) /\ Rec[l].ev = k /\ l' = l + 1
+NoIter == UNCHANGED <<iters, idrift>>
 
 SeqToSet(s) == {s[i] : i \in DOMAIN s}
 
-T_Reset       == IsEvent("Reset") /\ Reset(SeqToSet(E.features), E.mask)
-T_NewPlanner  == IsEvent("NewPlanner") /\ NewPlanner(E.pid, E.kind, E.elem, E.result, E.backend)
-T_DropPlanner == IsEvent("DropPlanner") /\ DropPlanner(E.pid)
-T_PlanBegin   == IsEvent("PlanBegin") /\ PlanBegin(E.pid, E.n, E.dir)
-T_CacheGet    == IsEvent("CacheGet") /\ CacheGet(E.len, E.dir, E.hit)
-T_CacheInsert == IsEvent("CacheInsert") /\ CacheInsert(E.len, E.dir)
-T_Build       == IsEvent("Build") /\ Build(E.kind, E.len, E.dir, E.scr)
-T_PlanEnd     == IsEvent("PlanEnd") /\ PlanEnd(E.pid, E.iid, E.outcome, E.len, E.rdir, E.scr)
-T_PlanReport  == IsEvent("PlanReport") /\ PlanReport(E.pid, E.n, E.dir, E.outcome, E.tree)
-T_Construct   == IsEvent("Construct") /\ Construct(E.iid, E.elem, E.outcome, E.n, E.dir, E.len, E.rdir, E.scr)
-T_ElemReport  == IsEvent("ElemReport") /\ ElemReport(E.elem, E.non_ring, E.tags_ok)
-T_CallBegin   == IsEvent("CallBegin") /\ CallBegin(E.cid, E.iid, E.entry, E.data, E.out, E.scratch, E.inh)
-T_CallEnd     == IsEvent("CallEnd") /\ CallEnd(E.cid, E.outcome, E.obs, E.role, E.key, E.outh)
-\* hook-level chunk accounting is judged by the faithful CallProtocol model (separate config); here it stutters
-T_Iter        == (IsEvent("Enter") \/ IsEvent("Chunk") \/ IsEvent("Leave")) /\ UNCHANGED vars
-T_Note        == IsEvent("Note") /\ UNCHANGED vars
+T_Reset       == IsEvent("Reset") /\ Reset(SeqToSet(E.features), E.mask) /\ iters' = << >> /\ UNCHANGED idrift
+T_NewPlanner  == IsEvent("NewPlanner") /\ NewPlanner(E.pid, E.kind, E.elem, E.result, E.backend) /\ NoIter
+T_DropPlanner == IsEvent("DropPlanner") /\ DropPlanner(E.pid) /\ NoIter
+T_PlanBegin   == IsEvent("PlanBegin") /\ PlanBegin(E.pid, E.n, E.dir) /\ NoIter
+T_CacheGet    == IsEvent("CacheGet") /\ CacheGet(E.len, E.dir, E.hit) /\ NoIter
+T_CacheInsert == IsEvent("CacheInsert") /\ CacheInsert(E.len, E.dir) /\ NoIter
+T_Build       == IsEvent("Build") /\ Build(E.kind, E.len, E.dir, E.scr) /\ NoIter
+T_PlanEnd     == IsEvent("PlanEnd") /\ PlanEnd(E.pid, E.iid, E.outcome, E.len, E.rdir, E.scr) /\ NoIter
+T_PlanReport  == IsEvent("PlanReport") /\ PlanReport(E.pid, E.n, E.dir, E.outcome, E.tree) /\ NoIter
+T_Construct   == IsEvent("Construct") /\ Construct(E.iid, E.elem, E.outcome, E.n, E.dir, E.len, E.rdir, E.scr) /\ NoIter
+T_ElemReport  == IsEvent("ElemReport") /\ ElemReport(E.elem, E.non_ring, E.tags_ok) /\ NoIter
+T_CallBegin   == IsEvent("CallBegin") /\ CallBegin(E.cid, E.iid, E.entry, E.data, E.out, E.scratch, E.inh) /\ NoIter
+T_CallEnd     == IsEvent("CallEnd") /\ CallEnd(E.cid, E.outcome, E.obs, E.role, E.key, E.outh) /\ NoIter
+\* Hook-level chunk accounting (H4), judged by the faithful CallProtocol model: each Enter predicts the exact
+\* sequence of Chunk steps <<width, remaining>>; a step that differs from the prediction is MODEL-DRIFT.
+T_Enter ==
+    /\ IsEvent("Enter")
+    /\ iters' = Append(iters, [exp |-> ExpectedChunks(E.variant, E.chunk, E.len1, E.len2, E.scratch, E.required), pos |-> 0])
+    /\ idrift' = idrift + DriftIf(E.depth # Len(iters), <<"iter-depth", E.depth, Len(iters)>>)
+    /\ UNCHANGED vars
+T_Chunk ==
+    /\ IsEvent("Chunk")
+    /\ IF iters = << >> THEN idrift' = idrift + DriftIf(TRUE, <<"chunk-outside-iteration", l>>) /\ UNCHANGED iters
+       ELSE LET top == iters[Len(iters)]
+                ok  == top.pos < Len(top.exp) /\ top.exp[top.pos + 1] = <<E.width, E.remaining>>
+            IN /\ iters' = [iters EXCEPT ![Len(iters)].pos = @ + 1]
+               /\ idrift' = idrift + DriftIf(~ok, <<"chunk-step", l, E.width, E.remaining>>)
+    /\ UNCHANGED vars
+T_Leave ==
+    /\ IsEvent("Leave")
+    /\ iters' = IF iters = << >> THEN iters ELSE SubSeq(iters, 1, Len(iters) - 1)
+    /\ UNCHANGED <<vars, idrift>>
+T_Iter == T_Enter \/ T_Chunk \/ T_Leave
+T_Note        == IsEvent("Note") /\ UNCHANGED vars /\ NoIter
 
-TraceInit == Init /\ l = 1 /\ TLCSet(7, 0)
+TraceInit == Init /\ l = 1 /\ iters = << >> /\ idrift = 0 /\ TLCSet(7, 0)
 
 TraceNext ==
     \/ T_Reset \/ T_NewPlanner \/ T_DropPlanner
@@ -53,7 +74,7 @@ TraceAccepted ==
          /\ FALSE
 
 \* remember the last drift value in a TLC register so the postcondition can report it
-DriftView == TLCSet(7, drift)
+DriftView == TLCSet(7, drift + idrift)
 
 TraceInv == TypeOk /\ C04_Inv /\ C13_Inv /\ PendingInv /\ DriftView
 =============================================================================
